@@ -187,9 +187,11 @@ class DecoyFasta():
 
         if self.enzyme is not None:
             rule = self.enzyme
-            exception = 'trypsin_expection' if self.enzyme == 'trypsin' else None
-            fixed_indices += aa.AminoAcidSeqRecord(seq) \
-                .find_all_enzymatic_cleave_sites(rule, exception)
+            exception = 'trypsin_exception' if self.enzyme == 'trypsin' else None
+            # A cleavage site is the index after the cleavage residue; the residue
+            # to keep in place is the cleavage residue itself.
+            fixed_indices += [i - 1 for i in aa.AminoAcidSeqRecord(seq) \
+                .find_all_enzymatic_cleave_sites(rule, exception)]
 
         for i, it in enumerate(seq):
             if i == 0 and self.keep_peptide_nterm:
